@@ -36,10 +36,19 @@ op = st.one_of(
     st.fixed_dictionaries({'op': st.just('load'), 'p': st.integers(0, 3), 'doc': st.integers(0, 9)}),
     _process, _process, _process, _process,
 )
-history = st.fixed_dictionaries({'docs': st.lists(doc_spec, min_size=1, max_size=3),
+good_doc = st.fixed_dictionaries({'model': gen_doc.doc_model(max_depth=3)})
+bad_doc = st.fixed_dictionaries({'model': gen_doc.doc_model(max_depth=3),
+                                 'mutations': mutate_json.mutations})
+# forced shape: a parse that (probably) fails half-way, then the same instance is used again
+reuse_after_failure = st.tuples(bad_doc, good_doc, st.lists(op, max_size=4)).map(lambda t: {
+    'docs': [t[0], t[1]],
+    'ops': [{'op': 'new', 'doc': 0}, {'op': 'process', 'p': 0}, {'op': 'load', 'p': 0, 'doc': 1},
+            {'op': 'process', 'p': 0}, {'op': 'new', 'doc': 1}, {'op': 'process', 'p': 1}] + t[2]})
+free_history = st.fixed_dictionaries({'docs': st.lists(doc_spec, min_size=1, max_size=3),
                                  'ops': st.tuples(_new, st.lists(op, min_size=2, max_size=12),
                                                  st.lists(_process, max_size=3)).map(
                                      lambda t: [t[0]] + t[1] + t[2])})
+history = st.one_of(free_history, free_history, reuse_after_failure)
 
 
 def doc_bytes(spec):
@@ -162,5 +171,5 @@ def labels(case):
 
 
 def run(ctx):
-    ctx.clause('history', history, check_history, ctx.n(500, 20000), nontrivial=nontrivial,
+    ctx.clause('history', history, check_history, ctx.n(350, 20000), nontrivial=nontrivial,
                labels=labels)
